@@ -39,8 +39,26 @@ Theorem C18_default_limit : g_max_recursion_depth = 100.
 Proof. reflexivity. Qed.
 Print Assumptions C18_default_limit.
 
-(* Stated, not proved (decided by enumerating every random outcome on small inputs, see the check):
-     C18_nd_agrees : forall script limit v, (nd_visit limit script ([], v) = Err ERecursion None) <-> (limit < nesting v \/ limit < 1) *)
+(* Nondeterministic mode draws the same line, whatever the random choices: the traversal raises JSONPathRecursionError
+   exactly when the nesting of the value exceeds the limit (or the limit is below 1), and otherwise returns; the loop
+   bound of the model is never reached (Proofs/NdDepth.v, on top of the simulation of Proofs/NdSim.v). *)
+From JP Require Import Model.NdVisit Proofs.NdDepth.
+Theorem C18_nd_agrees : forall script limit v,
+  nd_visit limit script ([], v) = Err ERecursion None <-> (limit < nesting v \/ limit < 1)%nat.
+Proof.
+  intros script limit v. destruct (Nat.lt_ge_cases limit 1) as [Hl | Hl].
+  - split; [intros _; right; exact Hl|]. intros _. unfold nd_visit. assert (E : (limit <? 1)%nat = true) by (apply Nat.ltb_lt; exact Hl). rewrite E. reflexivity.
+  - destruct (nd_visit_depth limit script ([], v) Hl) as [(ns & E & Hn) | (E & Hn)]; cbn [snd] in *; rewrite E; split.
+    + discriminate.
+    + intros [H | H]; lia.
+    + intros _. left. exact Hn.
+    + reflexivity.
+Qed.
+Print Assumptions C18_nd_agrees.
+Theorem C18_nd_outcomes : forall script limit v, (1 <= limit)%nat ->
+  (exists ns, nd_visit limit script ([], v) = Ok ns) \/ nd_visit limit script ([], v) = Err ERecursion None.
+Proof. intros script limit v Hl. destruct (nd_visit_depth limit script ([], v) Hl) as [(ns & E & _) | (E & _)]; [left; exists ns | right]; exact E. Qed.
+Print Assumptions C18_nd_outcomes.
 
 Example C18_example :   (* a -> [b], b -> {x: a} : a 2-cycle; and [[[1]]] with limit 3 / 2 *)
   gvisit [CArr [1%nat]; CObj [([120%N], 0%nat)]] 100 [] 0 = Err ERecursion None /\
